@@ -78,7 +78,10 @@ type c04World struct {
 	phase   map[int]string   // the step key the running handler of a task has recorded ("did" / "undid")
 	recAt   [][][2]string    // recAt[k] = (id, key) of the handlers blocked in their unlocked section after k+1 actions
 	rels    []c04Release     // one per handler start: what it recorded and the last payload at the moment it had released the lock
+	stopCh  chan struct{}    // closed by the driver right before a graceful TaskRunner.Stop()
 }
+
+var c04ErrCancelled = errors.New("cancelled: the runner is stopping")
 
 type c04Release struct {
 	ID      string
@@ -88,7 +91,7 @@ type c04Release struct {
 
 func c04NewWorld(in c04In, st *State, be *c04Backend) *c04World {
 	w := &c04World{in: in, n: len(in.Waits), st: st, be: be, gates: map[int]chan struct{}{}, started: make(chan int, 64),
-		do: map[int]int{}, undo: map[int]int{}, phase: map[int]string{}}
+		do: map[int]int{}, undo: map[int]int{}, phase: map[int]string{}, stopCh: make(chan struct{})}
 	viaUnlocker := map[int]bool{}
 	for _, u := range in.Unlocker {
 		viaUnlocker[u] = true
@@ -98,7 +101,7 @@ func c04NewWorld(in c04In, st *State, be *c04Backend) *c04World {
 		fail[f] = true
 	}
 	handler := func(isUndo bool) HandlerFunc {
-		return func(t *Task, _ *tomb.Tomb) error {
+		return func(t *Task, tb *tomb.Tomb) error {
 			id, _ := strconv.Atoi(t.ID())
 			ch := make(chan struct{})
 			w.mu.Lock()
@@ -123,14 +126,19 @@ func c04NewWorld(in c04In, st *State, be *c04Backend) *c04World {
 				relock := st.Unlocker()()
 				w.released(t.ID(), key)
 				w.started <- id
-				<-ch
+				cancelled := w.wait(ch, tb)
 				relock()
 				st.Unlock()
+				if cancelled {
+					return c04ErrCancelled
+				}
 			} else {
 				st.Unlock()
 				w.released(t.ID(), key)
 				w.started <- id
-				<-ch
+				if w.wait(ch, tb) {
+					return c04ErrCancelled
+				}
 			}
 			if !isUndo && fail[id] {
 				return errors.New("boom")
@@ -142,6 +150,26 @@ func c04NewWorld(in c04In, st *State, be *c04Backend) *c04World {
 	w.r.AddHandler("u", handler(false), handler(true))
 	w.r.AddHandler("n", handler(false), nil)
 	return w
+}
+
+// the slow part of a handler: until the driver releases it, or - graceful stop - until the runner is being stopped and the
+// handler's tomb is dying: then the handler gives up with a plain cancellation error, as a handler honouring its tomb does.
+// (A tomb killed by the abort of the lane alone does not end the handler: it completes its work.)
+func (w *c04World) wait(ch chan struct{}, tb *tomb.Tomb) (cancelled bool) {
+	select {
+	case <-ch:
+		return false
+	case <-w.stopCh:
+		<-tb.Dying()
+		return true
+	}
+}
+
+// graceful stop: TaskRunner.Stop() with the handlers in flight
+func (w *c04World) gracefulStop() {
+	close(w.stopCh)
+	w.r.Stop()
+	w.running = nil
 }
 
 // called by a handler right after it has released the state lock: a crash now finds the payload be.count()-1
@@ -417,6 +445,62 @@ func c04Exec(in c04In) vh.Out {
 			}
 		}
 	}
+	// graceful-stop points: the same history replayed on a fresh state, TaskRunner.Stop() with the handlers in flight, then
+	// ReadState of the last payload + fresh runner + policy; compared with the baseline of the crash at the same point
+	var stopItems []string
+	var stopObs []map[string]interface{}
+	for _, r := range rs {
+		if len(w.recAt[r.J-1]) == 0 {
+			continue // nothing in flight: the stop is the crash
+		}
+		st4, be4 := c04Build(in)
+		w4 := c04NewWorld(in, st4, be4)
+		for _, a := range w.acts[:r.J] {
+			w4.act(a)
+		}
+		before := c04Statuses(st4)
+		w4.gracefulStop()
+		be5 := &c04Backend{}
+		st5, err := ReadState(be5, bytes.NewReader(be4.payloads[be4.count()-1]))
+		if err != nil {
+			panic(err)
+		}
+		after := c04Statuses(st5)
+		w5 := c04NewWorld(in, st5, be5)
+		w5.settle()
+		finS := c04Statuses(st5)
+		dos, undos := c04CountPairs(n, w5.do), c04CountPairs(n, w5.undo)
+		class := "same"
+		for id := 1; id <= n; id++ {
+			b, a := c04Lookup(before, id), c04Lookup(after, id)
+			if !(a == b || (b == 5 && (a == 6 || a == 1))) {
+				class = "other"
+				tags["stopped-handler-not-left-in-flight"] = true
+			}
+			doFinished := !(a == 2 || a == 3 || a == 0)
+			undoFinished := a == 8 || a == 1 || a == 9
+			if (doFinished && w5.do[id] != 0) || (undoFinished && w5.undo[id] != 0) || (a == 3 && w5.do[id] < 1) || (a == 7 && w5.undo[id] < 1) {
+				class = "other"
+			}
+			if c04Lookup(finS, id) != c04Lookup(r.FinalB, id) {
+				if b != 5 {
+					class = "other"
+				} else if class == "same" {
+					class = "abort-only"
+				}
+			}
+			if b == 7 {
+				tags["graceful-stop-while-undoing"] = true
+			}
+			if b == 3 {
+				tags["graceful-stop-while-doing"] = true
+			}
+		}
+		stopItems = append(stopItems, "(SObs "+vh.CoqNat(r.J)+" "+c04Pairs(before)+" "+c04Pairs(after)+" "+c04Pairs(finS)+" "+c04Pairs(r.FinalB)+" "+c04Pairs(dos)+" "+c04Pairs(undos)+")")
+		stopObs = append(stopObs, map[string]interface{}{"j": r.J, "before": before, "after": after, "final_stop": finS, "final_baseline": r.FinalB,
+			"dos": dos, "undos": undos, "class": class})
+	}
+
 	// every handler start of the run without restart: is the step it recorded in the payload a crash would have found right
 	// after it released the lock?
 	var relItems []string
@@ -469,7 +553,7 @@ func c04Exec(in c04In) vh.Out {
 		}
 	}
 	coq := "(Case " + vh.CoqList(graph) + " (mkCfg " + c04NL(in.Fail) + " " + c04NL(in.NoUndo) + ") " + vh.CoqList(acts) + " " +
-		c04Pairs(final) + " " + vh.CoqList(items) + " " + vh.CoqList(relItems) + ")"
+		c04Pairs(final) + " " + vh.CoqList(items) + " " + vh.CoqList(relItems) + " " + vh.CoqList(stopItems) + ")"
 	if len(in.Fail) > 0 {
 		tags["failure"] = true
 	}
@@ -490,7 +574,7 @@ func c04Exec(in c04In) vh.Out {
 		tl = append(tl, t)
 	}
 	sort.Strings(tl)
-	obs := map[string]interface{}{"final": final, "checkpoints": be.count(), "actions": w.acts, "restarts": rs, "releases": relObs}
+	obs := map[string]interface{}{"final": final, "checkpoints": be.count(), "actions": w.acts, "restarts": rs, "releases": relObs, "stops": stopObs}
 	return vh.Out{Observed: obs, Coq: coq, NonTrivial: tags["restart-while-doing"] || tags["restart-while-undoing"], Tags: tl}
 }
 
